@@ -369,6 +369,19 @@ def writer_skeleton_clauses(idl, mem):
             c = "$1 == %d && " % WIRE[wt] + c
         o.append("//@   site ).Write#%d assert [C03] %s" % (k, c))
     o.append("//@   sites ).Write = %d" % len(sk))
+    # the element count written behind the head of a container member is the length of that member (only for the
+    # containers that are members themselves: a nested container is held by a loop variable)
+    k = 0
+    for tag, req, ity, name, dflt in sorted(mem):
+        t = parse_type(ity)
+        isarr = t[0] == "array"  # a fixed array: its count is a constant of the generated code, nothing to compare
+        if isarr:
+            t = ("vector", t[1])
+        n = len(writer_skeleton(idl, [(tag, req, ity, name, dflt)]))
+        if (t[0] == "map" or t[0] == "vector") and not isarr:
+            at = k + (2 if (t[0] == "vector" and t[1] == ("name", "byte")) else 1)
+            o.append("//@   site ).Write#%d assert [C03] $1 == s32(len(st.%s))" % (at, upper1(name)))
+        k += n
     return o
 
 
